@@ -334,9 +334,10 @@ class Fitter:
             cur = node.content
 
         if not to_end:
+            # once nodes at slice_depth were taken, what remains is no longer open below that depth
             self.unplaced = Slice(
                 drop_from_fragment(slice.content, slice_depth, taken),
-                slice.open_start,
+                min(slice.open_start, slice_depth) if taken else slice.open_start,
                 slice.open_end,
             )
         elif slice_depth == 0:
